@@ -31,6 +31,7 @@ def run(ctx):
         cases.append(dict(root="@R", cwd="@R/w/c", env=None, init=[], ops=list(ops_)))
         meta.append(dict(kind=kind, ref=ref))
 
+    pending = []   # obstacles on ALREADY written (shared) files: need the file's content at that point
     hists = [[o] for o in ops] + [[a, b] for a in ops for b in ops if rng.random() < (0.25 if ctx.quick else 1.0)]
     if not ctx.quick:
         hists += [[rng.choice(ops) for _ in range(3)] for _ in range(1500)]
@@ -48,14 +49,35 @@ def run(ctx):
             for prev in h[:pos]:
                 already |= set(targets(U, proto, prev))
             for which, tpath in ((0, tg[0]), (-1, tg[-1])):
+                if tpath in already and "up.ts" not in tpath and len(pending) < (400 if ctx.quick else 4000):
+                    # the merge branch of export_and_merge: the file exists and holds other types
+                    pending.append((h, pos, tpath, ref))
                 if tpath in already or "up.ts" in tpath:
-                    continue  # obstacles only on not-yet-written paths
+                    continue  # the obstacles below only on not-yet-written paths
                 # (a) the target itself is a directory
                 add(h[:pos] + [("mkdir", tpath), o, ("rm", tpath), o] + h[pos + 1:], "target-is-dir", ref)
                 # (b) a parent component is a regular file
                 parent = os.path.dirname(tpath)
                 if not any(a.startswith(parent + "/") or a == parent for a in already) and parent.count("/") > 3:
                     add(h[:pos] + [("mkfile", parent, "i am a file"), o, ("rm", parent), o] + h[pos + 1:], "parent-is-file", ref)
+    # second phase: run the prefixes to learn what the shared file contains when the fault is injected, then
+    # replace the file by a directory, let the step fail, put the file back and retry
+    if pending and not ctx.replay:
+        pre = {}
+        for h, pos, tpath, ref in pending:
+            pre.setdefault(tuple(h[:pos]), None)
+        pcases = [dict(root="@R", cwd="@R/w/c", env=None, init=[], ops=list(k)) for k in pre]
+        pplaced = sm.place(pcases)
+        preal = sm.run_real(exe, pplaced)
+        for k, pl, r in zip(list(pre), pplaced, preal):
+            pre[k] = {os.path.normpath(os.path.join(pl["root"], q)).replace(pl["root"], "@R", 1): txt for q, txt in r[1]}
+        for h, pos, tpath, ref in pending:
+            content = pre[tuple(h[:pos])].get(tpath)
+            if content is None:
+                continue
+            o = h[pos]
+            add(h[:pos] + [("rm", tpath), ("mkdir", tpath), o, ("rm", tpath), ("mkfile", tpath, content), o] + h[pos + 1:],
+                "written-file-became-dir", ref)
     if ctx.replay:
         rp = json.load(open(ctx.replay))
         cases, meta = [rp["case"]] + ([rp["reference"]] if "reference" in rp else []), [dict(kind="replay", ref=1 if "reference" in rp else None)] + ([dict(kind="plain", ref=None)] if "reference" in rp else [])
@@ -99,7 +121,7 @@ def run(ctx):
     ctx.coverage.update({
         "evaluations": len(cases),
         "distinct_nontrivial": failed_then_ok,
-        "rule": "histories of length 1..%d over {export, export_all, export_all_to} x %d types (shared file, mutual dependency, H depending on the above-root Up so that export_all fails half-way, non-exportable root Vec<A>) and, for each, one obstacle {target is a directory, parent component is a regular file} before each step on a not-yet-written path (root's file and the last dependency's file), the failing step, removal of the obstacle and a retry; above-root and non-exportable roots occur as plain steps; on a real directory; non-trivial = the obstacle made a step fail and the retried history ended with the fault-free tree" % (
+        "rule": "histories of length 1..%d over {export, export_all, export_all_to} x %d types (shared file, mutual dependency, H depending on the above-root Up so that export_all fails half-way, non-exportable root Vec<A>) and, for each, one obstacle {target is a directory, parent component is a regular file} before each step on a not-yet-written path (root's file and the last dependency's file), and {a shared file already written by this process replaced by a directory, then restored} (the merge branch of export_and_merge), the failing step, removal of the obstacle and a retry; above-root and non-exportable roots occur as plain steps; on a real directory; non-trivial = the obstacle made a step fail and the retried history ended with the fault-free tree" % (
             2 if ctx.quick else 3, len(TYPES)),
         "samples": [dict(case=cases[k], kind=meta[k]["kind"], results=real[k][0]) for k in (1, len(cases) // 2, len(cases) - 1)],
         "correspondence": {"histories": len(cases), "suspects": nsus, "confirmed_breaks": len(breaks)},
